@@ -13,7 +13,7 @@ Definition ekind_code (k : ekind) : nat :=
   | KUnknownStruct => 17 | KUnknownAttrInLit => 18 | KWrongTypeStruct => 19
   | KWrongTypePrim => 20 | KWrongTypeArray => 21 | KArrayElem => 22 | KArrayLength => 23
   | KMissingAttr => 24 | KParLoop => 25 | KNotBoolean => 26 | KCmpTypes => 27 | KArith => 28
-  | KUnknownTask => 29 | KIndexMismatch => 30 | KLimitNotNumber => 31 | KRecursion => 32
+  | KUnknownTask => 29 | KIndexMismatch => 30 | KLimitNotNumber => 31 | KRecursion => 32 | KNestedArray => 33
   end.
 
 (* (constructor number, i, path, j) *)
